@@ -261,6 +261,9 @@ type Region struct {
 	// Prepare runs before parameters are bound (to create objects for them).
 	Prepare  func(r *Run)
 	lastObjs map[string]*Obj
+	// ObserveLocals: allocations of the region function, by source name, whose stores are reported like
+	// those to a parameter object, under the given object name.
+	ObserveLocals map[string]string
 	// LookupVal gives the value of a map lookup m[k] (default: a named opaque).
 	LookupVal func(r *Run, m, k Val, t types.Type) (v Val, has Val)
 }
@@ -696,7 +699,10 @@ func (r *Run) step(fr *frame, in ssa.Instruction) {
 			name = x.Name()
 		}
 		var o *Obj
-		if x.Heap && x.Comment != "varargs" {
+		if nm, ok := r.reg.ObserveLocals[x.Comment]; ok && fr.fn == r.reg.Fn {
+			// a local the rule wants to watch (a named result that is built up in place)
+			o = r.NewObj(nm, false)
+		} else if x.Heap && x.Comment != "varargs" {
 			// escaping allocation (returned / stored): observed like a parameter object
 			o = r.NewObj("new:"+name, false)
 		} else {
